@@ -16,11 +16,13 @@ def setsSeq : LeafS → Bool
     copies and elements share blocks) -/
 def OpSup : Op → Prop
   | .new _ (.lit x) => LitOk x
+  | .new _ (.list l) => ∀ s ∈ l, SrcLit s
+  | .new _ (.array l) => ∀ s ∈ l, SrcLit s
+  | .new _ (.map m) => ∀ q ∈ m, SrcLit q.2
   | .copy _ _ => True
   | .get _ _ _ => True
   | .swap _ _ => True
-  | .mut v _ lf => LeafSupS lf ∧ (setsSeq lf = true → v ∉ lf.vars)
-  | _ => False
+  | .mut _ _ lf => LeafSupS lf
 
 theorem dgood_other {s : DState} {σ : Store} {g g' : Nat → Val} {v : Nat} {c' : Cell} {y : Val} {h' : Heap}
     (hrel : ∀ w, w < nvars → absCell g (s.vars w) = σ w) (htmp : s.vars tmpVar = .null) (hv : v < nvars)
@@ -50,6 +52,140 @@ theorem assign_dgood {s : DState} {σ : Store} (hg : DGood s σ) (v : Nat) (hv :
     cases s'; simp only at hvars; subst hvars; rfl
   rw [hs']
   exact dgood_other hrel htmp hv (by rw [← hvars]; exact i') (hval.trans (hy g i hrel)) (fun _ _ _ => rfl)
+
+/-- sources of a temporary as seen from the unmasked variable file -/
+theorem valSOk_of (vars : Nat → Cell) (a : ValS) (hlit : match a with
+      | .list l => ∀ s ∈ l, SrcLit s | .array l => ∀ s ∈ l, SrcLit s | .map m => ∀ q ∈ m, SrcLit q.2 | .lit _ => False)
+    (hall : allLt a.vars = true) : ValSOk vars vars a := by
+  have hw : ∀ w ∈ a.vars, vars w = vars w ∧ w < nslots := fun w hw => ⟨rfl, lt_slots (allLt_mem hall hw)⟩
+  cases a with
+  | lit x => exact hlit
+  | list l => exact fun s hs => srcOk_of vars vars s (hlit s hs) (fun w hw' => hw w (by simp only [ValS.vars, List.mem_flatMap]; exact ⟨s, hs, hw'⟩))
+  | array l => exact fun s hs => srcOk_of vars vars s (hlit s hs) (fun w hw' => hw w (by simp only [ValS.vars, List.mem_flatMap]; exact ⟨s, hs, hw'⟩))
+  | map m => exact fun q hq => srcOk_of vars vars q.2 (hlit q hq) (fun w hw' => hw w (by simp only [ValS.vars, List.mem_flatMap]; exact ⟨q, hq, hw'⟩))
+
+theorem valS_eval_rel {s : DState} {σ : Store} {g : Nat → Val} (hrel : ∀ w, w < nvars → absCell g (s.vars w) = σ w)
+    (a : ValS) (hall : allLt a.vars = true) : a.eval (fun w => absCell g (s.vars w)) = a.eval σ :=
+  ValS.eval_congr a (fun w hw => hrel w (allLt_mem hall hw))
+
+/-- the abstract values of the variables survive the construction of a temporary -/
+theorem rel_after_tmp {s : DState} {σ : Store} {g g1 : Nat → Val} (i : DInv s.h s.vars zeroE g)
+    (hrel : ∀ w, w < nvars → absCell g (s.vars w) = σ w) (hfr : ∀ x, x < s.h.next → g1 x = g x) :
+    ∀ w, w < nvars → absCell g1 (s.vars w) = σ w := by
+  intro w hw
+  rw [← hrel w hw]
+  apply absCell_congr
+  intro b hb
+  obtain ⟨k, hk⟩ := i.live w b hb
+  exact hfr b (i.lt_next b k hk)
+
+/-- typed assignment of a temporary container to the variable itself (the temporary may hold copies
+    of that very variable) -/
+theorem root_tmp_step (ds : DblSem) {s : DState} {σ : Store} (hg : DGood s σ) (v : Nat) (hv : v < nvars) (a : ValS)
+    (ha : ValSOk s.vars s.vars a) (hall : allLt a.vars = true) :
+    ∃ s', dstep ds s (.mut v [] (.set a)) = some s' ∧ DGood s' (upd σ v (a.eval σ)) := by
+  obtain ⟨g, i, hrel, htmp⟩ := hg
+  have hv7 := lt_slots hv
+  let f := s.h.next + allocBound (.mut v [] (.set a)) + 1
+  have hsz : valSize a ≤ leafSize (.set a) := by cases a <;> simp [valSize, leafSize]
+  obtain ⟨h1, p, g1, rt, i1, hok, hval, hfr, hn1, hn2, hl1⟩ := dinv_tmpPay s.vars f a ha s.h zeroE g i
+    (by have := liveCount_le_next s.h; simp only [f, allocBound]; omega)
+  have i2 := dinv_take i1 v hv7
+  have hd1 : Held h1 (upd s.vars v .null) (fun x => zeroE x + cntCells p.cells x + cellCnt (s.vars v) x) g1 (s.vars v) :=
+    ⟨i2, fun x => Nat.le_add_left _ _, fun y hy => i.inl v y hy⟩
+  obtain ⟨h', c', g', r, st⟩ := setTmp_core hd1 p (by intro x; show _ ≤ zeroE x + _ + _; omega) hok f
+    (by have := liveCount_le_next s.h; simp only [f, allocBound]; omega)
+  have he : (fun x => (fun x => zeroE x + cntCells p.cells x + cellCnt (s.vars v) x) x - cntCells p.cells x)
+      = (fun x => cellCnt (s.vars v) x) := by
+    funext x; simp only [zeroE]; omega
+  rw [he] at st
+  have hgood := put_back (s := { h := h1, vars := s.vars }) i1 (rel_after_tmp (s := s) i hrel hfr) htmp v hv _ 1 h' c' g' st
+  refine ⟨{ h := h', vars := upd s.vars v c' }, ?_, ?_⟩
+  · cases a with
+    | lit x => exact absurd ha (by simp [ValSOk])
+    | list l =>
+      obtain ⟨s2, hsb, hra⟩ := core_result r
+      simp only [dstep, walkMut, leafOp]; simp only [f] at rt hsb hra; rw [rt]; simp only [hsb, hra, Option.map]
+    | array l =>
+      obtain ⟨s2, hsb, hra⟩ := core_result r
+      simp only [dstep, walkMut, leafOp]; simp only [f] at rt hsb hra; rw [rt]; simp only [hsb, hra, Option.map]
+    | map m =>
+      obtain ⟨s2, hsb, hra⟩ := core_result r
+      simp only [dstep, walkMut, leafOp]; simp only [f] at rt hsb hra; rw [rt]; simp only [hsb, hra, Option.map]
+  · rw [hval, valS_eval_rel hrel a hall] at hgood; exact hgood
+
+/-- `~Variant()` and construction from a temporary container -/
+theorem new_tmp_step (ds : DblSem) {s : DState} {σ : Store} (hg : DGood s σ) (v : Nat) (hv : v < nvars) (a : ValS)
+    (ha : ValSOk s.vars s.vars a) (hall : allLt a.vars = true) :
+    ∃ s', dstep ds s (.new v a) = some s' ∧ DGood s' (upd σ v (a.eval σ)) := by
+  obtain ⟨g, i, hrel, htmp⟩ := hg
+  have hv7 := lt_slots hv
+  let f := s.h.next + allocBound (.new v a) + 1
+  have hab : allocBound (.new v a) = valSize a + 2 := by cases a <;> first | rfl | exact absurd ha (by simp [ValSOk])
+  obtain ⟨h1, p, g1, rt, i1, hok, hval, hfr, hn1, hn2, hl1⟩ := dinv_tmpPay s.vars f a ha s.h zeroE g i
+    (by have := liveCount_le_next s.h; simp only [f]; omega)
+  have i2 := dinv_take i1 v hv7
+  obtain ⟨h2, r2, i3, s2⟩ := dinv_release f h1 _ (s.vars v) i2 (fun x => Nat.le_add_left _ _)
+    (by have := liveCount_le_next s.h; simp only [f]; omega)
+  have hok2 : ∀ d ∈ p.cells, CellOk h2 d := by
+    intro d hdm
+    refine ⟨hok d hdm, ?_⟩
+    intro t ht
+    have := cellCnt_le_of_mem p.cells d t hdm
+    rw [ht] at this; simp [cellCnt_ptr] at this
+    exact live_of_pending i3 t (by show 1 ≤ zeroE t + cntCells p.cells t + cellCnt (s.vars v) t - cellCnt (s.vars v) t; omega)
+  have hcp := dinv_copyPay i3 p hok2
+  generalize hcpe : copyPay h2 p = cpr at hcp
+  obtain ⟨h3, p2⟩ := cpr
+  simp only at hcp
+  obtain ⟨i4, a4, sl4, _, _, o4, c4⟩ := hcp
+  have hok3 : ∀ d ∈ p2.cells, CellOk h3 d := by
+    intro d hdm
+    refine ⟨o4 d hdm, ?_⟩
+    intro t ht
+    have := cellCnt_le_of_mem p2.cells d t hdm
+    rw [ht] at this; simp [cellCnt_ptr] at this
+    exact live_of_pending i4 t (by show 1 ≤ _ + cntCells p2.cells t; omega)
+  have i5 := dinv_alloc i4 p2 hok3 (fun x => Nat.le_add_left _ _)
+  have hn3 : h3.next = h1.next := by rw [show h3.next = h2.next from sl4.1, s2.next]
+  obtain ⟨h6, r6, i6, s6⟩ := dinv_releaseAll f p.cells _ _ i5
+    (by intro x; show _ ≤ zeroE x + cntCells p.cells x + cellCnt (s.vars v) x - cellCnt (s.vars v) x + cntCells p2.cells x - cntCells p2.cells x + _; omega)
+    (by rw [liveCount_alloc i4, liveCount_sameLive sl4]; have := s2.live; have := liveCount_le_next s.h; simp only [f]; omega)
+  have i7 := dinv_put i6 v hv7 (by intro b; simp) (.ptr h3.next)
+    (by intro x
+        show _ ≤ zeroE x + cntCells p.cells x + cellCnt (s.vars v) x - cellCnt (s.vars v) x + cntCells p2.cells x - cntCells p2.cells x
+          + (if x = h3.next then 1 else 0) - cntCells p.cells x
+        simp only [cellCnt_ptr, zeroE]
+        by_cases ex : x = h3.next
+        · subst ex; simp
+        · have : ¬ h3.next = x := fun y => ex y.symm
+          simp [ex, this])
+    (by intro z hz; cases hz)
+  rw [upd_upd_same] at i7
+  refine ⟨{ h := h6, vars := upd s.vars v (.ptr h3.next) }, ?_, ?_⟩
+  · cases a with
+    | lit x => exact absurd ha (by simp [ValSOk])
+    | list l => simp only [dstep, newVar]; simp only [f] at rt r2 r6; rw [rt]; simp only [r2, hcpe, alloc_id, r6, Option.map]
+    | array l => simp only [dstep, newVar]; simp only [f] at rt r2 r6; rw [rt]; simp only [r2, hcpe, alloc_id, r6, Option.map]
+    | map m => simp only [dstep, newVar]; simp only [f] at rt r2 r6; rw [rt]; simp only [r2, hcpe, alloc_id, r6, Option.map]
+  · refine dgood_other hrel htmp hv (i7.congr ?_) ?_ ?_
+    · intro x
+      show zeroE x + cntCells p.cells x + cellCnt (s.vars v) x - cellCnt (s.vars v) x + cntCells p2.cells x - cntCells p2.cells x
+          + (if x = h3.next then 1 else 0) - cntCells p.cells x - cellCnt (.ptr h3.next) x = zeroE x
+      simp only [cellCnt_ptr, zeroE]
+      by_cases ex : x = h3.next
+      · subst ex; simp
+      · have : ¬ h3.next = x := fun y => ex y.symm
+        simp [ex, this]
+    · simp only [absCell, upd_same]
+      rw [a4, hval, valS_eval_rel hrel a hall]
+    · intro u hu _
+      apply absCell_congr
+      intro b hb
+      obtain ⟨k, hk⟩ := i.live u b hb
+      have hbl := i.lt_next b k hk
+      have : b ≠ h3.next := by rw [hn3]; omega
+      rw [upd_other _ _ _ _ this]; exact hfr b hbl
 
 theorem dstep_refines (ds : DblSem) {s : DState} {σ σ' : Store} (hg : DGood s σ) (op : Op) (hsup : OpSup op)
     (hspec : specStep ds σ op = some σ') : ∃ s', dstep ds s op = some s' ∧ DGood s' σ' := by
@@ -117,9 +253,27 @@ theorem dstep_refines (ds : DblSem) {s : DState} {σ σ' : Store} (hg : DGood s 
     · cases hspec
   | new v e =>
     cases e with
-    | list l => exact absurd hsup (by simp [OpSup])
-    | array l => exact absurd hsup (by simp [OpSup])
-    | map m => exact absurd hsup (by simp [OpSup])
+    | list l =>
+      simp only [specStep] at hspec
+      split at hspec
+      · rename_i hc
+        injection hspec with hspec; subst hspec
+        exact new_tmp_step ds hg0 v hc.1 _ (valSOk_of s.vars (.list l) hsup hc.2) hc.2
+      · cases hspec
+    | array l =>
+      simp only [specStep] at hspec
+      split at hspec
+      · rename_i hc
+        injection hspec with hspec; subst hspec
+        exact new_tmp_step ds hg0 v hc.1 _ (valSOk_of s.vars (.array l) hsup hc.2) hc.2
+      · cases hspec
+    | map m =>
+      simp only [specStep] at hspec
+      split at hspec
+      · rename_i hc
+        injection hspec with hspec; subst hspec
+        exact new_tmp_step ds hg0 v hc.1 _ (valSOk_of s.vars (.map m) hsup hc.2) hc.2
+      · cases hspec
     | lit x =>
       have hlit : LitOk x := hsup
       simp only [specStep] at hspec
@@ -239,8 +393,7 @@ theorem dstep_refines (ds : DblSem) {s : DState} {σ σ' : Store} (hg : DGood s 
           · rw [upd_other _ _ _ _ euw, hoth2 u hu euw]; exact hrel u hu
     · cases hspec
   | «mut» v p lf =>
-    have hls : LeafSupS lf := hsup.1
-    have hseq : setsSeq lf = true → v ∉ lf.vars := hsup.2
+    have hls : LeafSupS lf := hsup
     simp only [specStep] at hspec
     split at hspec
     · rename_i hc
@@ -272,9 +425,9 @@ theorem dstep_refines (ds : DblSem) {s : DState} {σ σ' : Store} (hg : DGood s 
                 (by have := liveCount_le_next s.h; omega)
               exact ⟨s', by simp only [dstep, hvw, if_false]; exact r, g'⟩
           -- everything else runs on the held cell, through the nested walk
-          have heldCase : (∀ w, ¬ (p = [] ∧ lf = .assign (.var w))) →
+          have heldCase : (∀ w, ¬ (p = [] ∧ lf = .assign (.var w))) → (p = [] → setsSeq lf = false) →
               ∃ s', dstep ds s (.mut v p lf) = some s' ∧ DGood s' (upd σ v y) := by
-            intro hna
+            intro hna hnt
             have hd := held_take i v hv7
             have hnv : v ∉ lf.vars := by
               intro hin
@@ -291,9 +444,9 @@ theorem dstep_refines (ds : DblSem) {s : DState} {σ σ' : Store} (hg : DGood s 
                 | set e =>
                   cases e with
                   | lit x => simp [LeafS.vars, ValS.vars] at hin
-                  | list l => exact hseq rfl hin
-                  | array l => exact hseq rfl hin
-                  | map m => exact hseq rfl hin
+                  | list l => exact absurd (hnt rfl) (by simp [setsSeq])
+                  | array l => exact absurd (hnt rfl) (by simp [setsSeq])
+                  | map m => exact absurd (hnt rfl) (by simp [setsSeq])
                 | clear => simp [LeafS.vars] at hin
                 | touch k => simp [LeafS.vars] at hin
                 | lapp src => simp [mutOk, hcon] at hm; exact hm hin
@@ -327,14 +480,31 @@ theorem dstep_refines (ds : DblSem) {s : DState} {σ σ' : Store} (hg : DGood s 
                 | lit x => simp only [dstep, r, Option.map]
               | _ => simp only [dstep, r, Option.map]
           cases p with
-          | cons st p' => exact heldCase (by intro w hh; cases hh.1)
+          | cons st p' => exact heldCase (by intro w hh; cases hh.1) (by intro hh; cases hh)
           | nil =>
+            -- a temporary container assigned to the variable itself
+            have tmpCase : ∀ a, lf = .set a → (match a with
+                  | .list l => ∀ s ∈ l, SrcLit s | .array l => ∀ s ∈ l, SrcLit s | .map m => ∀ q ∈ m, SrcLit q.2 | .lit _ => False) →
+                ∃ s', dstep ds s (.mut v [] lf) = some s' ∧ DGood s' (upd σ v y) := by
+              intro a hlf hlit
+              subst hlf
+              have hall' : allLt a.vars = true := hall
+              obtain ⟨s', r, g'⟩ := root_tmp_step ds hg0 v hv a (valSOk_of s.vars a hlit hall') hall'
+              simp only [updPath, LeafS.eval, Leaf.apply, Option.some.injEq] at hy
+              subst hy
+              exact ⟨s', r, g'⟩
             cases lf with
             | assign src =>
               cases src with
               | var w => exact assignVarCase w rfl rfl
-              | lit x => exact heldCase (by intro w hh; cases hh.2)
-            | _ => exact heldCase (by intro w hh; cases hh.2)
+              | lit x => exact heldCase (by intro w hh; cases hh.2) (fun _ => rfl)
+            | set a =>
+              cases a with
+              | lit x => exact heldCase (by intro w hh; cases hh.2) (fun _ => rfl)
+              | list l => exact tmpCase _ rfl hls
+              | array l => exact tmpCase _ rfl hls
+              | map m => exact tmpCase _ rfl hls
+            | _ => exact heldCase (by intro w hh; cases hh.2) (fun _ => rfl)
     · cases hspec
 
 end Nstd.Variant.Deep
